@@ -77,8 +77,11 @@ _scratch_dirs = []
 
 
 def _cleanup():
-    for d in _scratch_dirs:
-        shutil.rmtree(d, ignore_errors=True)
+    # only the process that created a scratch directory removes it: forked pool workers inherit this
+    # handler and are terminated with SIGTERM while the parent still needs the directory
+    for d, pid in _scratch_dirs:
+        if pid == os.getpid():
+            shutil.rmtree(d, ignore_errors=True)
 
 
 def _on_signal(signum, frame):
@@ -97,7 +100,7 @@ for _s in (signal.SIGTERM, signal.SIGINT, signal.SIGHUP):
 def scratch(prefix="verif"):
     base = os.environ.get("VERIF_TMP", "/tmp")
     d = tempfile.mkdtemp(prefix="%s.%d." % (prefix, os.getpid()), dir=base)
-    _scratch_dirs.append(d)
+    _scratch_dirs.append((d, os.getpid()))
     return d
 
 
